@@ -88,31 +88,49 @@ Theorem C20_analog_rounding : forall (n : Z) (d : positive),
 Proof. exact q_round_spec_Z. Qed.
 Print Assumptions C20_analog_rounding.
 
-(* default of an unwritten pin, inside the guard: the code agrees with the property
-   (INPUT_PULLUP reads HIGH, everything else LOW) ... *)
-Theorem C20_unwritten_default_partial : forall (ops : list op) (p : pin),
-  guard (history (normalise p) ops) = true ->
+(* digital_read IS the reference memory of the property, for every history and every pin:
+   the last level written to the pin, else HIGH while its current mode is INPUT_PULLUP,
+   else LOW.  (Before the repair "fix: Core.pin_mode no longer stores the pull-up level ..."
+   this held only under a guard - C20_unwritten_default_partial - and was refuted outside
+   it; former finding F-C20-pullup-stale.) *)
+Theorem C20_unwritten_default : forall (ops : list op) (p : pin),
   dread (exec ops) p = ref_dread (history (normalise p) ops).
-Proof. exact unwritten_default_partial. Qed.
-Print Assumptions C20_unwritten_default_partial.
+Proof. exact unwritten_default. Qed.
+Print Assumptions C20_unwritten_default.
 
-(* ... and the guard is exact: outside it the code's answer is wrong *)
-Theorem C20_unwritten_default_guard_exact : forall (ops : list op) (p : pin),
-  dread (exec ops) p = ref_dread (history (normalise p) ops) <->
-  guard (history (normalise p) ops) = true.
-Proof. exact guard_exact. Qed.
-Print Assumptions C20_unwritten_default_guard_exact.
+(* an unwritten pin reads HIGH exactly while its current mode is INPUT_PULLUP, LOW exactly
+   while it is anything else (or was never configured) *)
+Theorem C20_unwritten_high_iff_pullup : forall (ops : list op) (p : pin),
+  let h := history (normalise p) ops in
+  h_dw h = None ->
+  (dread (exec ops) p = HIGH <-> mode_is_pullup (h_mode h) = true) /\
+  (dread (exec ops) p = LOW <-> mode_is_pullup (h_mode h) = false).
+Proof. exact unwritten_high_iff_pullup. Qed.
+Print Assumptions C20_unwritten_high_iff_pullup.
 
-(* pin_mode(7, INPUT_PULLUP); pin_mode(7, OUTPUT); digital_read(7) returns HIGH although the
-   pin is an unwritten OUTPUT pin, for which the property demands LOW *)
-Theorem C20_pullup_then_output_refuted :
-  exists ops p,
-    let h := history (normalise p) ops in
-    h_dw h = None /\ h_mode h = Some OUTPUT /\ ref_dread h = LOW /\
-    dread (exec ops) p = HIGH /\
-    snd (run_from init (ops ++ [DRead p])) = [RNone; RNone; RVal HIGH].
-Proof. exact pullup_then_output_refuted. Qed.
-Print Assumptions C20_pullup_then_output_refuted.
+(* the positive statement that C20_pullup_then_output_refuted used to contradict, for all
+   histories instead of one: on a pin no digital_write ever addressed, whatever modes it
+   went through before (INPUT_PULLUP included), after pin_mode(p, m) and any later calls
+   that neither digital_write nor re-configure that pin, a read through any alias returns
+   HIGH if m is INPUT_PULLUP and LOW otherwise *)
+Theorem C20_mode_decides_unwritten : forall (pre post : list op) (p q : pin) (m : text),
+  normalise q = normalise p ->
+  Forall (not_dwrite_to (normalise p)) pre ->
+  Forall (not_dwrite_or_mode_to (normalise p)) post ->
+  dread (exec (pre ++ PinMode p m :: post)) q = (if is_pullup m then HIGH else LOW).
+Proof. exact mode_decides_unwritten. Qed.
+Print Assumptions C20_mode_decides_unwritten.
+
+(* the three dicts key by key: _digital_values holds exactly the levels written with
+   digital_write (pin_mode stores nothing there), _pin_modes the current mode,
+   _analog_values the last accepted analog value *)
+Theorem C20_dicts_are_the_history : forall (ops : list op) (k : pin),
+  lookup k (dig (exec ops)) =
+    match h_dw (history k ops) with Some b => Some (b2z b) | None => None end /\
+  lookup k (modes (exec ops)) = h_mode (history k ops) /\
+  lookup k (ana (exec ops)) = h_aw (history k ops).
+Proof. exact dicts_char. Qed.
+Print Assumptions C20_dicts_are_the_history.
 
 (* ================================================================== Utils *)
 Local Open Scope Q_scope.
@@ -275,15 +293,29 @@ Example C20_core_nonvacuous :
 Proof. vm_compute. repeat split. Qed.
 Print Assumptions C20_core_nonvacuous.
 
-(* the guard of the partial theorem is satisfiable both ways, and fails on the witness *)
-Example C20_guard_nonvacuous :
-  guard (history p7 [PinMode s7 INPUT_PULLUP]) = true /\
-  ref_dread (history p7 [PinMode s7 INPUT_PULLUP]) = HIGH /\
-  guard (history p7 [PinMode p7 OUTPUT; PinMode p7 INPUT_PULLUP; PinMode p7 INPUT_PULLUP]) = true /\
-  guard (history p7 [PinMode p7 INPUT_PULLUP; DWrite p7 (PB false); PinMode p7 OUTPUT]) = true /\
-  guard (history p7 witness_ops) = false.
-Proof. vm_compute. repeat split. Qed.
-Print Assumptions C20_guard_nonvacuous.
+(* the history of the former finding (pin_mode(7, INPUT_PULLUP); pin_mode(7, OUTPUT);
+   digital_read(7)) now reads LOW, the pull-up default is still there while the mode lasts and
+   comes back with it, and a written level survives every mode change *)
+Example C20_pullup_nonvacuous :
+  snd (run_from init (witness_ops ++ [DRead p7])) = [RNone; RNone; RVal LOW] /\
+  h_dw (history p7 witness_ops) = None /\ h_mode (history p7 witness_ops) = Some OUTPUT /\
+  dig (exec witness_ops) = [] /\
+  snd (run_from init [PinMode s7 INPUT_PULLUP; DRead p7; PinMode s07 INPUT; DRead p7;
+                      PinMode p7 INPUT_PULLUP; DRead s7; DWrite p7 (PB false); DRead p7;
+                      PinMode p7 OUTPUT; DRead p7; DWrite s7 (PI 2); PinMode p7 INPUT; DRead s07])
+  = [RNone; RVal 1; RNone; RVal 0; RNone; RVal 1; RNone; RVal 0; RNone; RVal 0; RNone; RNone; RVal 1] /\
+  (* hypotheses of C20_mode_decides_unwritten, on a history that was pulled up before *)
+  Forall (not_dwrite_to (normalise p7)) [PinMode s7 INPUT_PULLUP; AWrite p7 (PI 9); DWrite sA0 (PI 1); DRead p7] /\
+  Forall (not_dwrite_or_mode_to (normalise p7)) [AWrite s07 (PI 1); PinMode sA0 INPUT_PULLUP; DRead p7; DWrite sm7 (PI 1)] /\
+  is_pullup OUTPUT = false /\ is_pullup INPUT_PULLUP = true.
+Proof.
+  split; [reflexivity|]. split; [reflexivity|]. split; [reflexivity|]. split; [reflexivity|].
+  split; [vm_compute; reflexivity|].
+  split; [repeat (apply Forall_cons || apply Forall_nil); cbn; try exact I; discriminate|].
+  split; [repeat (apply Forall_cons || apply Forall_nil); cbn; try exact I; discriminate|].
+  split; reflexivity.
+Qed.
+Print Assumptions C20_pullup_nonvacuous.
 
 Example C20_utils_nonvacuous :
   umap 5 0 10 0 100 = UOk (map_val 5 0 10 0 100) /\ (map_val 5 0 10 0 100 == 50)%Q /\
